@@ -60,7 +60,7 @@ def ser_act(a):
         return "callprep %d %d %s" % (a[1], 1 if a[2] else 0, ser_clo(a[3]))
     if k in ("stop", "slablen", "now", "start", "shutdown"):
         return k
-    if k in ("fail", "store", "droph", "iszombie", "log", "logcheck"):
+    if k in ("fail", "store", "droph", "pdrop", "iszombie", "log", "logcheck"):
         return "%s %d" % (k, a[1])
     if k in ("kill", "killa", "owned", "clone", "anon", "retsend", "fwdsend"):
         return "%s %d %d" % (k, a[1], a[2])
@@ -179,7 +179,7 @@ class _P:
             return (k, h, bool(r), self.clo())
         if k in ("stop", "slablen", "now", "start", "shutdown"):
             return (k,)
-        if k in ("fail", "store", "droph", "iszombie", "log", "logcheck"):
+        if k in ("fail", "store", "droph", "pdrop", "iszombie", "log", "logcheck"):
             return (k, self.num())
         if k in ("kill", "killa", "owned", "clone", "anon", "retsend", "fwdsend"):
             return (k, self.num(), self.num())
@@ -290,6 +290,13 @@ class Gen:
             if not destructive:
                 cand += [h for h in self.stable if h in self.handles and self.handles[h][0] in kinds]
         return self.r.choice(cand) if cand else None
+
+    def drop_act(self, h):
+        """Drop a handle: plainly, or by the unwinding of a panic caught on the spot (same semantics)."""
+        if self.r.random() < 0.2:
+            self.st("pdrop")
+            return ("pdrop", h)
+        return ("droph", h)
 
     def pick_actor(self, ctx, scope):
         """A handle to an actor; from inside an actor's own body often that actor itself (the `[cx]` macro arms)."""
@@ -409,7 +416,7 @@ class Gen:
             h = self.mk(scope, "tok", t)
             return ("newtok", h, t, script)
         self.gone(h)
-        return ("droph", h)
+        return self.drop_act(h)
 
     def notif(self, depth, scope):
         hp = self.pick(["own", "act"], scope)
@@ -518,7 +525,7 @@ class Gen:
         if h is None:
             return None
         self.gone(h)
-        return ("droph", h)
+        return self.drop_act(h)
 
     def g_own(self, ctx, depth, scope):
         r = self.r
@@ -546,7 +553,7 @@ class Gen:
             h = self.pick(["own", "act", "anon"], scope, destructive=True)
             if h is not None:
                 self.gone(h)
-                return ("droph", h)
+                return self.drop_act(h)
         h = self.pick(["own", "act"], scope)
         return ("iszombie", h) if h is not None else None
 
@@ -571,7 +578,7 @@ class Gen:
             self.gone(hr)
             if r.random() < 0.7:
                 return ("retsend", hr, r.randrange(0, 1000))
-            return ("droph", hr)
+            return self.drop_act(hr)
         rid = self.fresh("nr")
         ht = self.pick_actor(ctx, scope)
         kind = r.choices(["clos", "to", "someto"], [5, 3, 2])[0]
@@ -624,7 +631,7 @@ class Gen:
             if hf is None:
                 return None
             self.gone(hf)
-            return ("droph", hf)
+            return self.drop_act(hf)
         f = self.fresh("nf")
         ht = self.pick_actor(ctx, scope)
         # bodies may only use forwarders created before this one (they are generated before it is registered)
@@ -782,6 +789,49 @@ class Gen:
         self.st("scen_prep_owner")
         return out
 
+    def scen_ret_to_prep(self):
+        """A ret_to! / ret_some_to! Ret aimed at an actor that is still in Prep when the Ret is resolved (sent,
+           dropped, or dropped by a deleted timer) and the main queue runs: the target call waits in the Prep queue;
+           then the init step completes (the call runs) or the actor is terminated (the call is discarded)."""
+        r = self.r
+        a = self.fresh("na")
+        h = self.fresh("nh")
+        acts = [("actor", h, a, None)]
+        n = r.choice([1, 1, 2])
+        rets = []
+        for _ in range(n):
+            hr, rid = self.fresh("nh"), self.fresh("nr")
+            kind = r.choice(["to", "to", "someto"])
+            acts.append(("newret", hr, rid, (kind, h, ("clo", self.fresh("nclo"), 0, 0, [], [("now",)] if r.random() < 0.3 else []))))
+            rets.append(hr)
+        # other calls queued before / between
+        if r.random() < 0.5:
+            acts.append(("call", h, ("clo", self.fresh("nclo"), 0, 0, [], [])))
+        for hr in rets:
+            c = r.random()
+            if c < 0.5:
+                acts.append(("retsend", hr, r.randrange(0, 1000)))
+            elif c < 0.75:
+                acts.append(self.drop_act(hr))
+            else:
+                v = self.fresh("nv")
+                acts += [("tadd", "f", v, self.t + r.randrange(1, 30) * 2 + 1, ("clo", self.fresh("nclo"), 0, 0, [hr], [])), ("tdel", "f", v)]
+        out = [("do", acts), ("run", self.t, False)]
+        fate = r.random()
+        if fate < 0.65:
+            out.append(("do", [("callprep", h, True, ("clo", self.fresh("nclo"), 0, 0, [], []))]))
+        elif fate < 0.8:
+            out.append(("do", [("callprep", h, r.random() < 0.5, ("clo", self.fresh("nclo"), 0, 0, [], [("stop",) if r.random() < 0.5 else ("fail", 7)]))]))
+        elif fate < 0.9:
+            out.append(("do", [("kill", h, 5)]))
+        else:
+            out.append(("do", [self.drop_act(h)]))
+        self.t += 2 * r.randrange(0, 3)
+        out.append(("run", self.t, False))
+        out.append(("do", [("iszombie", h)] if fate < 0.9 else []))
+        self.st("scen_ret_to_prep")
+        return out
+
     # ---- whole programs ----
     def program(self):
         r = self.r
@@ -805,6 +855,9 @@ class Gen:
                 break
             if self.w["ret"] >= 3 and r.random() < 0.15:
                 prog += self.scen_var_timer()
+                continue
+            if self.w["ret"] >= 3 and r.random() < 0.15:
+                prog += self.scen_ret_to_prep()
                 continue
             if self.w["own"] >= 3 and r.random() < (0.25 if self.w["own"] >= 9 else 0.08):
                 prog += self.scen_prep_owner()
